@@ -40,6 +40,8 @@ void fcpverif_inst(Buffer& b) {
     Array<Elem, 4> a{}; a.Encode(b); (void)Array<Elem, 4>::Decode(b);
     DynamicArray<Elem> da{}; da.Encode(b); (void)DynamicArray<Elem>::Decode(b);
     Optional<Elem> o{}; o.Encode(b); (void)Optional<Elem>::Decode(b);
+    (void)u.DecodeJson(); (void)s.DecodeJson(); (void)f.DecodeJson(); (void)d.DecodeJson(); (void)st.DecodeJson();
+    (void)a.DecodeJson(); (void)da.DecodeJson(); (void)o.DecodeJson();
 }
 }
 """
@@ -160,6 +162,56 @@ class CppCodec:
                     if name == "Encode" and not (ps and "Buffer" in ps[0].qtype):
                         continue
                     return m
+        return None
+
+    # ------------------------------------------------------------------ JSON value category of a wrapper
+    def json_category(self, cls: CNode) -> Optional[str]:
+        """What <wrapper>::DecodeJson returns, by the type of the returned expression before it is converted
+        to json: 'signed' | 'unsigned' | 'float' | 'array' (a json that is always an array) |
+        'array-or-null' (a default-constructed json that only becomes an array by push_back) | None."""
+        m = self.method(cls, "DecodeJson")
+        if m is None:
+            return None
+        body = [c for c in m.inner if c.kind == "CompoundStmt"][0]
+        rets = [x for x in walk(body) if x.kind == "ReturnStmt" and x.inner]
+        if not rets:
+            return None
+        e = rets[-1].inner[0]
+        # strip conversions to json
+        cur = e
+        while cur.kind in ("ExprWithCleanups", "CXXConstructExpr", "MaterializeTemporaryExpr", "CXXBindTemporaryExpr", "ImplicitCastExpr", "CXXFunctionalCastExpr", "ParenExpr") and cur.inner:
+            if cur.kind == "ImplicitCastExpr" and cur.get("castKind") in ("LValueToRValue", "NoOp") and "json" not in cur.qtype:
+                break
+            if "json" not in cur.qtype and cur.kind not in ("ExprWithCleanups", "MaterializeTemporaryExpr"):
+                break
+            cur = cur.inner[-1] if cur.kind != "CXXConstructExpr" else cur.inner[0]
+        t = (cur.desugared or cur.qtype).replace("const ", "").strip()
+        if "json" in cur.qtype:
+            # a json-typed local: how was it initialised?
+            ref = next((x for x in walk(cur) if x.kind == "DeclRefExpr"), None)
+            decl = self.by_id.get(ref.get("referencedDecl", {}).get("id", "")) if ref is not None else None
+            if decl is not None:
+                init_calls = [x for x in walk(decl) if x.kind in ("CallExpr", "CXXMemberCallExpr") and any(y.kind == "DeclRefExpr" and y.get("referencedDecl", {}).get("name") in ("array", "object") for y in walk(x))]
+                pushes = [x for x in walk(body) if x.kind == "CXXMemberCallExpr" and any(y.kind == "MemberExpr" and y.get("name") == "push_back" for y in walk(x.inner[0]))]
+                if init_calls:
+                    return "array"
+                if pushes:
+                    return "array-or-null"
+            return "json"
+        if t in ("float", "double"):
+            return "float"
+        w = int_width(t)
+        if w is not None:
+            return "unsigned" if t.startswith(("uint", "unsigned")) or t in ("bool", "_Bool") else "signed"
+        if "vector" in t:
+            return "array"
+        return None
+
+    def getword_return(self) -> Optional[str]:
+        for m in self.buffer.inner:
+            if m.kind == "CXXMethodDecl" and m.get("name") == "GetWord":
+                q = m.qtype
+                return q.split("(")[0].strip()
         return None
 
     # ------------------------------------------------------------------ effect grammar
@@ -435,6 +487,16 @@ def buffer_rules(cc: CppCodec, rep, rule: str) -> None:
                 if sp.kind == "CXXMethodDecl" and any(c.kind == "TemplateArgument" for c in sp.inner):
                     methods.append(sp)
     seen = set()
+    from ..front_clang import narrow_shifts
+    seen_ns = set()
+    for m in methods:
+        for x, w, tq in narrow_shifts(m):
+            key_ns = (m.get("name"), w, tq)
+            if key_ns in seen_ns:
+                continue
+            seen_ns.add(key_ns)
+            rep.violation(rule, F, "fcp::Buffer::%s" % m.get("name"), "`<<` by a variable count computed in %d-bit int, then widened to %s" % (w, tq),
+                          "the shift is evaluated in a %d-bit integer and only afterwards converted to %s: for counts of %d and more the mask/bit is wrong (fields wider than %d bits)" % (w, tq, w - 1, w))
     for m in methods:
         name = m.get("name")
         body = [c for c in m.inner if c.kind == "CompoundStmt"]
